@@ -8,6 +8,7 @@
 // Copies / selections (real, imag, conj, complex, round, abs(real), flip, repelem, zeropad, delayseq, up/downsample,
 // integer arange, min/max) are compared exactly (-0 == +0).
 #include "kit/num.h"
+#include "kit/prelude.h"
 #include <dsplib.h>
 
 #include <cfloat>
